@@ -237,7 +237,7 @@ def coq_props(prop_id, timeout=900):
     return True, len(theorems), blocks, bad, out
 
 
-def coq_eval(terms, imports, workdir, name='cases', shard_size=400, timeout=900, preamble=''):
+def coq_eval(terms, imports, workdir, name="cases", shard_size=400, timeout=300, preamble=""):
     """evaluates each Coq term (of type string) with vm_compute; returns the list of resulting python
     strings (None where evaluation failed)."""
     os.makedirs(workdir, exist_ok=True)
